@@ -349,3 +349,90 @@ func runKT3(c *core.Ctx) {
 		c.Undecided("zero-width", token.NoPos, "no kind clause with an OP_is_zero_N found")
 	}
 }
+
+// KT4: node kind and payload accessor agree (optdec). The DOM node stores a number as an
+// unsigned integer (KUint), a signed integer (KSint) or a float (KReal) in the same 64-bit
+// field; U64 / I64 / F64 reinterpret it. Under `case KUint` only U64 gives the value: I64 turns
+// 18446744073709551615 into -1.
+
+func init() {
+	register(&core.Rule{ID: "KT4", Min: 6, Arm64: true,
+		Doc: "Payload accessors under node-kind clauses of internal/decoder/optdec: in every case clause over the node kinds KUint / KSint / KReal, each call of a payload accessor U64() / I64() / F64() matches every kind the clause lists (KUint: U64, KSint: I64, KReal: F64); a clause that lists kinds with different accessors may not call any of them.",
+		Run: runKT4})
+}
+
+func runKT4(c *core.Ctx) {
+	p := c.Prog
+	pk := p.Pkg("internal/decoder/optdec")
+	if pk == nil {
+		c.Undecided("internal/decoder/optdec", token.NoPos, "package not loaded")
+		return
+	}
+	want := map[string]string{"KUint": "U64", "KSint": "I64", "KReal": "F64"}
+	n := 0
+	for _, fd := range core.FuncDecls(pk) {
+		if fd.Body == nil {
+			continue
+		}
+		fn := core.FuncName(pk, fd)
+		ord := 0
+		ast.Inspect(fd.Body, func(nd ast.Node) bool {
+			cc, ok := nd.(*ast.CaseClause)
+			if !ok || len(cc.List) == 0 {
+				return true
+			}
+			var kinds []string
+			for _, e := range cc.List {
+				k, ok := p.ExprObj(e).(*types.Const)
+				if !ok || want[k.Name()] == "" {
+					return true
+				}
+				kinds = append(kinds, k.Name())
+			}
+			var bad []string
+			var badPos token.Pos
+			calls := 0
+			for _, st := range cc.Body {
+				ast.Inspect(st, func(x ast.Node) bool {
+					if _, nested := x.(*ast.CaseClause); nested {
+						return false
+					}
+					call, ok := x.(*ast.CallExpr)
+					if !ok || len(call.Args) != 0 {
+						return true
+					}
+					se, ok := call.Fun.(*ast.SelectorExpr)
+					if !ok || (se.Sel.Name != "U64" && se.Sel.Name != "I64" && se.Sel.Name != "F64") {
+						return true
+					}
+					calls++
+					for _, k := range kinds {
+						if want[k] != se.Sel.Name {
+							bad = append(bad, se.Sel.Name+"() under "+k)
+							if badPos == token.NoPos {
+								badPos = call.Pos()
+							}
+						}
+					}
+					return true
+				})
+			}
+			if calls == 0 {
+				return true
+			}
+			n++
+			ord++
+			c.Analysed(fn)
+			cn := fn + "/case " + strings.Join(kinds, ",") + "#" + itoa(ord)
+			if len(bad) > 0 {
+				c.Bad(cn, badPos, "%s: the 64-bit payload is reinterpreted with the accessor of another kind (a KUint value of 2^63 or more read with I64() becomes negative, e.g. 18446744073709551615 decodes to -1 into a float64 or interface{} destination)", strings.Join(bad, ", "))
+			} else {
+				c.OK(cn, cc.Pos(), "payload accessor matches the node kind")
+			}
+			return true
+		})
+	}
+	if n == 0 {
+		c.Undecided("optdec/node-kind-accessor", token.NoPos, "no payload accessor under a node-kind clause found")
+	}
+}
